@@ -145,13 +145,132 @@ def run_case(case, ctx):
             e.sources.append(s.handle)
             src_refs.setdefault(s.id, set()).add((kind, e.id))
 
-        all_nodes = secs + [s for b in blocks for s in b["srcs"]]
+        all_nodes = []
         names_by = {}
-        for n in all_nodes:
-            names_by.setdefault((n.name, "sec" if n in secs else "src%d" % n.block), []).append(n)
-        repeated = any(len({id(x.parent) for x in v}) > 1 for v in names_by.values())
-        if repeated:
-            flags.add("name-repeated-across-subtrees")
+
+        def recompute():
+            del all_nodes[:]
+            all_nodes.extend(secs + [s for b in blocks for s in b["srcs"]])
+            names_by.clear()
+            for n in all_nodes:
+                names_by.setdefault((n.name, "sec" if n in secs else "src%d" % n.block), []).append(n)
+            if any(len({id(x.parent) for x in v}) > 1 for v in names_by.values()):
+                flags.add("name-repeated-across-subtrees")
+        recompute()
+
+        def entity_of(bi, kind, eid):
+            b = blocks[bi]
+            if kind == "source":
+                n = [x for x in b["srcs"] if x.id == eid][0]
+                chain = []
+                x = n
+                while x is not None:
+                    chain.append(x)
+                    x = x.parent
+                h = f.blocks[bi].sources[chain[-1].name]
+                for y in reversed(chain[:-1]):
+                    h = h.sources[y.name]
+                return h
+            if kind == "block":
+                return f.blocks[bi]
+            cont = {"array": "data_arrays", "group": "groups", "tag": "tags", "mtag": "multi_tags"}[kind]
+            return getattr(f.blocks[bi], cont)[eid]
+
+        def drop_subtree(n, lst, tops):
+            gone = n.bfs()
+            for x in gone:
+                lst.remove(x)
+            if n.parent is not None:
+                n.parent.children.remove(n)
+            elif n in tops:
+                tops.remove(n)
+            return gone
+
+        def mutate(muts):
+            done = 0
+            for kind, i, j, k in muts:
+                if kind in ("unmeta", "remeta") and meta_of:
+                    key = sorted(meta_of, key=lambda t: (t[0], t[1], str(t[2])))[i % len(meta_of)]
+                    e = entity_of(*key)
+                    if kind == "unmeta" or not secs:
+                        del e.metadata
+                        del meta_of[key]
+                    else:
+                        tgt = secs[j % len(secs)]
+                        e.metadata = tgt.handle if k % 2 else f.find_sections(lambda x, t=tgt.id: x.id == t)[0]
+                        meta_of[key] = tgt
+                    flags.add("mut:" + kind)
+                elif kind == "unsrc" and any(src_refs.values()):
+                    pairs = sorted((sid, kk, eid) for sid, v in src_refs.items() for kk, eid in v)
+                    sid, kk, eid = pairs[i % len(pairs)]
+                    bi = [x for x, b in enumerate(blocks) if any(n.id == sid for n in b["srcs"])][0]
+                    e = entity_of(bi, kk, eid)
+                    del e.sources[sid]
+                    src_refs[sid].discard((kk, eid))
+                    flags.add("mut:unsrc")
+                elif kind == "addsec":
+                    parent = secs[i % len(secs)] if (secs and j % 4) else None
+                    name = NAMES[k % len(NAMES)]
+                    sib = parent.children if parent is not None else top_secs
+                    if any(x.name == name for x in sib) or (parent is not None and parent.depth >= 5):
+                        continue
+                    node = Node(name, TYPES[k % len(TYPES)], parent, 1 if parent is None else parent.depth + 1)
+                    h = mksec(parent, node)
+                    node.id, node.handle = h.id, h
+                    if parent is not None:
+                        parent.children.append(node)
+                    secs.append(node)
+                    flags.add("mut:addsec")
+                elif kind == "addsrc" and blocks:
+                    bi = i % len(blocks)
+                    b = blocks[bi]
+                    parent = b["srcs"][j % len(b["srcs"])] if (b["srcs"] and j % 4) else None
+                    name = NAMES[k % len(NAMES)]
+                    sib = parent.children if parent is not None else b["top"]
+                    if any(x.name == name for x in sib) or (parent is not None and parent.depth >= 5):
+                        continue
+                    node = Node(name, TYPES[k % len(TYPES)], parent, 1 if parent is None else parent.depth + 1)
+                    node.block = bi
+                    if parent is None:
+                        h = f.blocks[bi].create_source(node.name, node.typ)
+                        b["top"].append(node)
+                    else:
+                        h = parent.handle.create_source(node.name, node.typ)
+                        parent.children.append(node)
+                    node.id, node.handle = h.id, h
+                    b["srcs"].append(node)
+                    flags.add("mut:addsrc")
+                elif kind == "delsec" and len(secs) > 1:
+                    n = secs[i % len(secs)]
+                    if n.parent is None and len(top_secs) == 1:
+                        continue
+                    cont = f.sections if n.parent is None else n.parent.handle.sections
+                    if j % 2:
+                        del cont[n.name]
+                    else:
+                        del cont[n.id]
+                    gone = {x.id for x in drop_subtree(n, secs, top_secs)}
+                    for key in [kk for kk, v in meta_of.items() if v.id in gone]:
+                        del meta_of[key]
+                    flags.add("mut:delsec")
+                elif kind == "delsrc" and blocks:
+                    pool = [x for b in blocks for x in b["srcs"]]
+                    if not pool:
+                        continue
+                    n = pool[i % len(pool)]
+                    b = blocks[n.block]
+                    cont = f.blocks[n.block].sources if n.parent is None else n.parent.handle.sources
+                    del cont[n.name]
+                    gone = {x.id for x in drop_subtree(n, b["srcs"], b["top"])}
+                    for sid in gone:
+                        src_refs.pop(sid, None)
+                    for key in [kk for kk in meta_of if kk[1] == "source" and kk[2] in gone]:
+                        del meta_of[key]
+                    flags.add("mut:delsrc")
+                else:
+                    continue
+                done += 1
+            return done
 
         def check_all(phase):
             # re-obtain handles by container lookup from the root (independent of creation handles)
@@ -198,9 +317,9 @@ def run_case(case, ctx):
                     elif sk == "block":
                         roots, obj, tree = blocks[sv]["top"], f.blocks[sv], blocks[sv]["srcs"]
                     elif sk == "section":
-                        roots, obj, tree = None, (sv.handle if phase == "session" and q.get("cached") else sec_handle(sv)), secs
+                        roots, obj, tree = None, (sv.handle if phase != "reopened" and q.get("cached") else sec_handle(sv)), secs
                     else:
-                        roots, obj, tree = None, (sv.handle if phase == "session" and q.get("cached") else src_handle(sv)), None
+                        roots, obj, tree = None, (sv.handle if phase != "reopened" and q.get("cached") else src_handle(sv)), None
                     if roots is not None:
                         exp = []
                         queue = [(r, 1) for r in roots]
@@ -247,7 +366,7 @@ def run_case(case, ctx):
             for n in secs:
                 want = n.parent.id if n.parent else None
                 handles = [("lookup", sec_handle(n))]
-                if phase == "session":
+                if phase != "reopened":
                     handles.append(("creation", n.handle))
                 found = f.find_sections(lambda s, i=n.id: s.id == i)
                 if len(found) != 1:
@@ -280,7 +399,7 @@ def run_case(case, ctx):
                 for n in b["srcs"]:
                     want = n.parent.id if n.parent else None
                     handles = [("lookup", src_handle(n))]
-                    if phase == "session":
+                    if phase != "reopened":
                         handles.append(("creation", n.handle))
                     found = f.blocks[bi].find_sources(lambda s, i=n.id: s.id == i)
                     if len(found) == 1:
@@ -369,6 +488,14 @@ def run_case(case, ctx):
                                       {"source": n.name, "want": sorted(total), "got": sorted(got), "phase": phase})
 
         check_all("session")
+        # ---------------- the stored structure changes; everything is asked again in the same session
+        # (searches, parents and referring lists must reflect the links CURRENTLY stored, not what an earlier
+        # query saw), through the same creation handles and fresh ones
+        applied = mutate(case.get("mutations", []))
+        if applied:
+            recompute()
+            flags.add("asked-again-after-mutation")
+            check_all("mutated")
         f.close()
         f = nixio.File.open(path, nixio.FileMode.ReadOnly)
         check_all("reopened")
@@ -409,7 +536,9 @@ def case_strategy():
         "blocks": st.lists(blockspec, min_size=1, max_size=2),
         "meta_links": st.lists(st.tuples(I, link_kinds, I, I).map(list), max_size=10),
         "src_links": st.lists(st.tuples(I, st.sampled_from(["array", "tag", "mtag"]), I, I).map(list), max_size=8),
-        "queries": st.lists(query, min_size=3, max_size=12)})
+        "queries": st.lists(query, min_size=3, max_size=12),
+        "mutations": st.lists(st.tuples(st.sampled_from(["unmeta", "remeta", "remeta", "unsrc", "addsec", "addsrc", "delsec",
+                                                         "delsrc"]), I, I, I).map(list), max_size=5)})
 
 
 def shards(tier, seed):
